@@ -3,16 +3,10 @@
     first, a single 1 bit is appended, the last byte is filled with zeros; the decoder reads from the END of the byte
     string, skips the zero padding and the 1 bit, and reads the fields most significant bit first.  Theorem: for every
     list of fields, reading back yields the same values in reverse order, and the stream is then exactly exhausted. *)
-Require Import Zrs.lib.RsPrelude Zrs.model.BitIO.
+Require Import Zrs.lib.RsPrelude Zrs.model.BitIO Zrs.model.BitStream.
 Open Scope Z_scope.
 
 (** *** bits and bytes *)
-Fixpoint bytes_of_bits (l : list bit) (fuel : nat) : list Z :=
-  match fuel with
-  | O => []
-  | S f => match l with [] => [] | _ => bits_val_lsb (firstn 8 l) :: bytes_of_bits (skipn 8 l) f end
-  end.
-
 Lemma byte_bits_lsb_length n x : length (byte_bits_lsb n x) = n.
 Proof. revert x. induction n as [|n IH]; intros x; cbn [byte_bits_lsb length]; [reflexivity|]. rewrite IH. reflexivity. Qed.
 
@@ -109,13 +103,7 @@ Proof.
 Qed.
 
 (** *** writing fields, reading them back *)
-Definition field := (Z * nat)%type.
 Definition field_ok (f : field) : Prop := 0 <= fst f < 2 ^ Z.of_nat (snd f).
-Definition fields_bits (fs : list field) : list bit := flat_map (fun f => byte_bits_lsb (snd f) (fst f)) fs.
-(** what the writers do at the end: a 1 bit, then zeros up to the byte boundary (a whole byte 0x01 if already aligned) *)
-Definition stream_bits (fs : list field) : list bit :=
-  let b := fields_bits fs in b ++ true :: repeat false (7 - length b mod 8).
-Definition stream_bytes (fs : list field) : list Z := bytes_of_bits (stream_bits fs) (S (length (stream_bits fs))).
 
 Fixpoint read_fields (r : rbr) (widths : list nat) : list Z * rbr :=
   match widths with
